@@ -1,5 +1,6 @@
 import FluteModel.Lemmas.RecvInv
 import FluteModel.Lemmas.RecvExpiry
+import FluteModel.Lemmas.RecvRun
 /-
   The object INSIDE an `FdtReceiver` (TOI 0): any predicate that holds for a new object and is
   preserved by `push` of TOI-0 packets holds for the object of every FDT-instance receiver in every
@@ -12,8 +13,7 @@ variable {σ : Type}
 def FObj (Q : σ → Prop) (f : FdtRecv σ) : Prop := ∀ o, f.obj = some o → Q o
 
 theorem applyWEv_obj (ans : FdtAns) (f : FdtRecv σ) (e : WEv) : (f.applyWEv ans e).obj = f.obj := by
-  cases e <;> simp only [FdtRecv.applyWEv]
-  cases ans <;> rfl
+  exact (applyWEv_fields ans f e).2.2.2.2.1
 
 theorem applyWEvs_obj (ans : FdtAns) (f : FdtRecv σ) (evs : List WEv) : (f.applyWEvs ans evs).obj = f.obj := by
   unfold FdtRecv.applyWEvs
